@@ -51,13 +51,24 @@ impl Prop for C18 {
                 1 => (140_000usize..=max_bits.max(140_001), prop_oneof![Just(65520u32), Just(65472), Just(65136)], any::<u64>()).prop_map(|(n, num, seed)| crate::bitgen::BitContent::Density { n, num, seed }),
             ], any::<u64>())
             .prop_map(|(kind, content, plan_seed)| AnyCase::Bits(crate::props::bitsprops::BitsCase { kind, bvhow: crate::bits::BvHow::Bools, wrap: crate::bits::WrapHow::New, content, plan_seed }));
-        let base = prop_oneof![5 => base, 1 => long_runs];
+        // structures over more than 2^20 symbols (state that is only created for large inputs)
+        let big = (proptest::sample::select(vec![0u8, 1, 2, 3]), (1usize << 20) + 1..=(1usize << 20) + 300_000, [1u16..1000, 0u16..1000, 0u16..1000, 0u16..1000], any::<u64>(), any::<u64>())
+            .prop_map(|(k, n, w, seed, plan_seed)| match k {
+                0 => AnyCase::Quad(crate::props::quadprops::QuadCase { kind: crate::quads::QuadKind::Rs256, how: crate::quads::QuadHow::FromQVector(crate::quads::IntTy::U8), content: crate::quads::QuadContent::Weighted { n, w, seed }, salt: 0, plan_seed }),
+                1 => AnyCase::Quad(crate::props::quadprops::QuadCase { kind: crate::quads::QuadKind::Rs512, how: crate::quads::QuadHow::Collect(crate::quads::IntTy::U8), content: crate::quads::QuadContent::Weighted { n, w, seed }, salt: 0, plan_seed }),
+                _ => AnyCase::Seq(crate::seqgen::SeqCase {
+                    kind: if k == 2 { TreeKind::Qwt256 } else { TreeKind::Hqwt512Pfs }, ty: crate::elem::ElemTy::U8, how: crate::trees::How::FromVec,
+                    content: crate::seqgen::Content::Recipe(crate::seqgen::Recipe { n, alphabet: (0..(16 + (seed % 40) as u128)).collect(), profile: crate::seqgen::Profile::Zipf(1), arr: crate::seqgen::Arr::Shuffled, seed }),
+                    tie_seed: seed, plan_seed }),
+            });
+        let big_weight = if tier == Tier::Quick { 1 } else { 2 };
+        let base = prop_oneof![40 => base, 8 => long_runs, big_weight => big];
         (base, prop_oneof![2 => 2u8..=4, 3 => 4u8..=8, 2 => 8u8..=16], 1u8..=3, prop_oneof![Just(8u8), Just(20), Just(40)])
             .prop_map(|(base, threads, rounds, budget)| ThreadCase { base, threads, rounds, budget })
             .boxed()
     }
     fn cases(&self, tier: Tier, _build: &str) -> u32 {
-        if tier == Tier::Quick { 4_000 } else { 40_000 }
+        if tier == Tier::Quick { 4_000 } else { 30_000 }
     }
     fn assumptions(&self) -> Vec<String> {
         vec!["thread interleavings are chosen by the OS scheduler: sampled, not enumerated".into()]
@@ -82,13 +93,16 @@ impl Prop for C18 {
         let base_seed = c.base.plan_seed();
         let seed_of = |t: usize, r: usize| mix(base_seed, (t * 1000 + r) as u64);
         let shared_seed = mix(base_seed, 0xABCDEF);
+        let vref = c.base.build();
         let digest = |seed: u64| -> Result<(u64, u64), Failure> {
             let mut c2 = Ctx::default();
-            v.check(seed, o, &mut c2)?;
+            vref.check(seed, o, &mut c2)?;
             Ok((c2.transcript, c2.queries))
         };
-        // ---- sequential reference + purity
-        let before = v.ser().map_err(|e| Failure::new(format!("{who}: serialize failed: {e}")))?;
+        // ---- sequential reference + purity, on a second value built from the same case: the value
+        // the threads share has never been queried or serialized when they start (lazily initialised
+        // state must be safe under concurrent first use)
+        let before = vref.ser().map_err(|e| Failure::new(format!("{who}: serialize failed: {e}")))?;
         let threads = c.threads as usize;
         let rounds = c.rounds as usize;
         let mut reference = vec![vec![0u64; rounds]; threads];
@@ -103,7 +117,7 @@ impl Prop for C18 {
         // a batch repeated after unrelated batches
         let (again, _) = digest(seed_of(0, 0))?;
         ensure!(again == reference[0][0], "{who}: the same batch of queries gave different answers when repeated after other queries");
-        let after = v.ser().map_err(|e| Failure::new(format!("{who}: serialize failed: {e}")))?;
+        let after = vref.ser().map_err(|e| Failure::new(format!("{who}: serialize failed: {e}")))?;
         ensure!(before == after, "{who}: the serialized form changed after running queries ({} bytes before, {} after)", before.len(), after.len());
 
         // ---- concurrent
@@ -147,7 +161,7 @@ impl Prop for C18 {
             }
         }
         let after2 = v.ser().map_err(|e| Failure::new(format!("{who}: serialize failed: {e}")))?;
-        ensure!(before == after2, "{who}: the serialized form changed after concurrent queries");
+        ensure!(before == after2, "{who}: the serialized form of the value queried concurrently differs from that of an identically built value ({} vs {} bytes)", after2.len(), before.len());
         Ok(())
     }
 }
